@@ -500,24 +500,35 @@ func arityBounds(cond ast.Expr, outcome bool, recv string, k int64, pk *Pkg) boo
 			}
 			return false
 		}
-		l := strings.ReplaceAll(expr(c.X), " ", "")
-		if arityEnv != nil {
-			l = strings.ReplaceAll(expr(arityEnv.resolve(c.X, 0)), " ", "")
+		side := func(e ast.Expr) string {
+			t := strings.ReplaceAll(expr(e), " ", "")
+			if arityEnv != nil {
+				t = strings.ReplaceAll(expr(arityEnv.resolve(e, 0)), " ", "")
+			}
+			return t
 		}
-		if l != recv+".NumOut()" {
+		X, Y, op := c.X, c.Y, c.Op
+		if side(X) != recv+".NumOut()" && side(Y) == recv+".NumOut()" {
+			// the comparison is written the other way round: mirror it
+			X, Y = Y, X
+			op = map[token.Token]token.Token{token.LSS: token.GTR, token.GTR: token.LSS, token.LEQ: token.GEQ, token.GEQ: token.LEQ, token.EQL: token.EQL, token.NEQ: token.NEQ}[op]
+		}
+		if side(X) != recv+".NumOut()" {
 			return false
 		}
-		v, ok := constInt(pk, c.Y)
+		v, ok := constInt(pk, Y)
 		if !ok {
 			// NumOut() != 3+slice.NumOut() style: a lower bound exists if the constant part > k
-			if be, isBe := ast.Unparen(c.Y).(*ast.BinaryExpr); isBe && be.Op == token.ADD {
-				if cv, isC := constInt(pk, be.X); isC && cv > k && (c.Op == token.NEQ && !outcome || c.Op == token.EQL && outcome) {
-					return true
+			if be, isBe := ast.Unparen(Y).(*ast.BinaryExpr); isBe && be.Op == token.ADD {
+				for _, part := range []ast.Expr{be.X, be.Y} {
+					if cv, isC := constInt(pk, part); isC && cv > k && (op == token.NEQ && !outcome || op == token.EQL && outcome) {
+						return true
+					}
 				}
 			}
 			return false
 		}
-		switch c.Op {
+		switch op {
 		case token.NEQ: // false => == v
 			return !outcome && v > k
 		case token.EQL:
@@ -729,7 +740,6 @@ func c18checkLoop(fn *Func, r string) ast.Stmt {
 	}
 	return loop
 }
-
 
 // c18assertingHelpers: unexported functions of the root package whose body
 // asserts a schema check — a top-level `if` whose condition applies the check
